@@ -20,7 +20,6 @@ NOT_APPLICABLE = {
     "C11": "a property of schedules of a tokio actor and channel; Kani does not model concurrency (the sequential kernel is C09)",
     "C13": "registry maps hold heap String keys and Arc<dyn Handler>; CBMC did not finish the smallest instance (2 services, 3 steps) in 8-15 min in three formulations, and the property has no symbolic data to quantify over",
     "C14": "turmoil simulation + HTTP/2: schedule space of an I/O runtime, no function-level kernel to encode",
-    "C15": "the selector mount was built (real nodes_selector.rs + tracing/rand shims) and compiles under Kani, but a single concrete configuration (layout [3], local (0,0), level Two, only the cursor symbolic) gave no result in 15 min: BTreeMap<Cow<str>,NodeCycler> + SmallVec<[SocketAddr;5]> + Vec of (&Cow,&mut NodeCycler) do not get through symbolic execution; the membership-update half lives inside a tokio::spawn'ed async block",
     "C16": "the set-difference logic is inline in an async fn driven by tokio watch channels and the RPC network; inseparable from the runtime (Kani ICE)",
     "C17": "SQLite and LMDB are C libraries behind FFI and reopen is file I/O; nothing to execute symbolically",
     "C18": "an interleaving property across two await points and a lock; add_state spawns a puppet actor on tokio (Kani ICE); a shimmed version would verify the shim",
